@@ -310,7 +310,6 @@ void qsbr::unregister_thread(std::uint64_t quiescent_states_since_epoch_change,
     noexcept
 #endif
 {
-  bool epoch_change_prepared = false;
 #ifdef UNODB_DETAIL_VERIF_HOOKS
   unodb::verif::sched(unodb::verif::QSBR_STATE_LOAD, &state);
 #endif
@@ -350,36 +349,74 @@ void qsbr::unregister_thread(std::uint64_t quiescent_states_since_epoch_change,
     const auto advance_epoch =
         remove_thread_from_old_epoch && (old_threads_in_previous_epoch == 1);
 
-    const auto new_state =
-        UNODB_DETAIL_UNLIKELY(remove_thread_from_old_epoch)
-            ? qsbr_state::
-                  dec_thread_count_threads_in_previous_epoch_maybe_advance(
-                      old_state, advance_epoch)
-            : qsbr_state::dec_thread_count(old_state);
-
-    if (UNODB_DETAIL_UNLIKELY(remove_thread_from_old_epoch)) {
+    if (UNODB_DETAIL_UNLIKELY(advance_epoch)) {
+      // This thread is the last one in the previous epoch, so its quitting
+      // advances the epoch. Do that in the same steps as a quiescent state does
+      // (remove_thread_from_previous_epoch followed by change_epoch): first
+      // claim the epoch change by bringing the number of threads in the
+      // previous epoch to zero, only then handle the global orphans, and only
+      // then publish the new epoch together with the decremented thread count.
+      // Handling the orphans before the claim would let other threads
+      // register, request deallocations and quit in the meantime, and their
+      // orphaned requests would then get aged one epoch too early, or, with a
+      // stale single thread mode flag, executed right away.
       thread_epoch_change_barrier();
 
-      if (UNODB_DETAIL_UNLIKELY(advance_epoch) &&
-          UNODB_DETAIL_LIKELY(!epoch_change_prepared)) {
-        // Handle global orphans only once for one epoch change. We cannot do
-        // this after setting the new state as then other threads may proceed
-        // with subsequent epoch changes.
-        epoch_change_barrier_and_handle_orphans(old_single_thread_mode);
-        epoch_change_prepared = true;
+      const auto epoch_change_claimed_state =
+          qsbr_state::dec_threads_in_previous_epoch(old_state);
 #ifdef UNODB_DETAIL_VERIF_HOOKS
-        unodb::verif::event(unodb::verif::EV_ORPHANS_AGED_IN_UNREGISTER,
-                            &state);
+      unodb::verif::sched(unodb::verif::QSBR_STATE_CAS, &state);
 #endif
+      if (UNODB_DETAIL_UNLIKELY(!state.compare_exchange_weak(
+              old_state, epoch_change_claimed_state, std::memory_order_acq_rel,
+              std::memory_order_acquire)))
+        continue;
+
+      // The epoch change is in progress and it is ours: nobody else can change
+      // the epoch nor the number of threads in the previous epoch now,
+      // registering threads wait for the new epoch, and other quitting threads
+      // only decrement the thread count.
+      epoch_change_barrier_and_handle_orphans(old_single_thread_mode);
+#ifdef UNODB_DETAIL_VERIF_HOOKS
+      unodb::verif::event(unodb::verif::EV_ORPHANS_AGED_IN_UNREGISTER, &state);
+#endif
+
+      old_state = epoch_change_claimed_state;
+      while (true) {
+        UNODB_DETAIL_ASSERT(old_epoch == qsbr_state::get_epoch(old_state));
+
+        const auto new_state = qsbr_state::inc_epoch_reset_previous(
+            qsbr_state::dec_thread_count(old_state));
+#ifdef UNODB_DETAIL_VERIF_HOOKS
+        unodb::verif::sched(unodb::verif::QSBR_STATE_CAS, &state);
+#endif
+        if (UNODB_DETAIL_LIKELY(state.compare_exchange_weak(
+                old_state, new_state, std::memory_order_acq_rel,
+                std::memory_order_acquire)))
+          break;
+        // Only thread count changes and spurious failures are possible here.
+        // The next loop iteration will assert this.
       }
-    }
+    } else {
+      const auto new_state =
+          UNODB_DETAIL_UNLIKELY(remove_thread_from_old_epoch)
+              ? qsbr_state::dec_thread_count_and_threads_in_previous_epoch(
+                    old_state)
+              : qsbr_state::dec_thread_count(old_state);
+
+      if (UNODB_DETAIL_UNLIKELY(remove_thread_from_old_epoch))
+        thread_epoch_change_barrier();
 
 #ifdef UNODB_DETAIL_VERIF_HOOKS
-    unodb::verif::sched(unodb::verif::QSBR_STATE_CAS, &state);
+      unodb::verif::sched(unodb::verif::QSBR_STATE_CAS, &state);
 #endif
-    if (UNODB_DETAIL_LIKELY(state.compare_exchange_weak(
-            old_state, new_state, std::memory_order_acq_rel,
-            std::memory_order_acquire))) {
+      if (UNODB_DETAIL_UNLIKELY(!state.compare_exchange_weak(
+              old_state, new_state, std::memory_order_acq_rel,
+              std::memory_order_acquire)))
+        continue;
+    }
+
+    {
       // Might be the first time the quitting thread saw the old epoch too, if a
       // second-to-last thread quit before, advancing the epoch.
       qsbr_thread.advance_last_seen_epoch(old_single_thread_mode, old_epoch);
@@ -404,11 +441,6 @@ void qsbr::unregister_thread(std::uint64_t quiescent_states_since_epoch_change,
 
       return;
     }
-#ifdef UNODB_DETAIL_VERIF_HOOKS
-    if (epoch_change_prepared)
-      unodb::verif::event(unodb::verif::EV_UNREGISTER_CAS_LOST_AFTER_AGING,
-                          &state);
-#endif
   }
 }
 
